@@ -8,7 +8,7 @@ use serde_json::{json, Value};
 
 const NAMES: [&str; 7] = ["time-limited", "m", "/m", "タグ", "a.b", "*", "removal-marker"];
 const ANAMES: [&str; 9] = ["to", "name", "skip", "unwrap-block", "c", "*", "x-y", "属性", "k2"];
-const VALUES: [&str; 20] = [
+const VALUES: [&str; 25] = [
     "",
     "v",
     "2020-01-01 00:00:00",
@@ -29,6 +29,11 @@ const VALUES: [&str; 20] = [
     "=",
     "C:\\dir\\",
     "a\\",
+    " ",
+    "=x",
+    "\u{e9}",
+    "x'",
+    "\"",
 ];
 const SEPS: [&str; 5] = [" ", "  ", "\n", "\n  ", " \n * "];
 const EQS: [&str; 4] = ["=", " =", "= ", " = "];
